@@ -341,7 +341,7 @@ func runC11(w *mon.W) {
 	c11KindGrid(w)
 	r := w.Rng
 	// ---------- (a) classical reading inside the resolving fragment
-	na := w.Share(w.Pick(40000, 1500000))
+	na := w.Share(w.Pick(120000, 1500000))
 	for it := 0; it < na; it++ {
 		d := gen.MapValue(r, 3, gen.ValOpts{MaxWidth: 5, NonFinite: it%5 == 0, IntegralF: true, Links: true})
 		if len(d.M) == 0 {
@@ -415,7 +415,7 @@ func runC11(w *mon.W) {
 	}
 
 	// like over a two-letter alphabet: wildcards followed by self-overlapping literals
-	for it := 0; it < w.Share(w.Pick(6000, 100000)); it++ {
+	for it := 0; it < w.Share(w.Pick(18000, 100000)); it++ {
 		mk := func(n int, alpha string) string {
 			b := make([]byte, n)
 			for i := range b {
@@ -452,7 +452,7 @@ func runC11(w *mon.W) {
 	}
 
 	// ---------- (b)-(f) on mixed present / missing / optional-missing data
-	nb := w.Share(w.Pick(10000, 300000))
+	nb := w.Share(w.Pick(30000, 300000))
 	for it := 0; it < nb; it++ {
 		d := c11Data(r)
 		dn := d.Node()
